@@ -40,7 +40,7 @@ theorem winningIds_exact (status : Nat → Bool) (first len : Nat) :
     (winningIds status first len).length ≤ len := by
   refine ⟨fun t => mem_winningIds status first len t, ?_⟩
   rw [← countWinning_eq_length]
-  exact countWinning_le status first len
+  exact g_countWinning_le status first len
 
 example :
     (clearRange (fun t => t == 3 || t == 5 || t == 9) (fun t => t + 1) 3 4).2.2 = 2 ∧
